@@ -292,7 +292,7 @@ CtxWrap(s, x, k) ==
     [] s = 37 -> MSH(<<KV(cA, fA), KV(cB, x)>>)
     [] s = 38 -> C2("min_by", fB, Ref(x))
 DocsCtx == {O2(cA, x, cB, y) : x \in {Null, I(1), O1(cA, I(1)), O0, A1(I(1))}, y \in {A0, A2(I(1), I(2)), A2(O1(cA, I(1)), O1(cA, I(2))), Null, O1(cA, I(1)), A2(S(cA), I(1)), A1(O1(cA, I(1))), A1(I(3))}}
-           \cup {A2(I(2), I(1)), A2(I(1), S(cA)), A0, Null, O0}
+           \cup {A2(I(2), I(1)), A2(I(1), S(cA)), A0, Null, O0, O2(cA, I(1), cB, A2(O1(cA, I(1)), O2(cA, I(2), cB, I(3))))}
 
 (* ---------------- C16: results are JSON (numbers, empties) -------------------------------- *)
 JsonL1 == SetToSeq(
@@ -301,6 +301,11 @@ JsonL1 == SetToSeq(
  \cup {C1(f, Lit(O0)) : f \in {"keys", "values", "merge", "to_array", "length"}} \cup {C1(f, fA) : f \in {"keys", "values"}}
  \cup {C2("map", Ref(Current), Lit(A0)), C2("map", Ref(Current), fC), C2("sort_by", Lit(A0), Ref(Current)), C2("max_by", Lit(A0), Ref(Current)), C2("min_by", fC, Ref(Current)),
        C2("merge", Lit(O0), Lit(O0)), C2("not_null", Lit(Null), Lit(Null)), C2("join", LitA, Lit(A0))}
+ \* one- and two-element containers through every container function (early returns and intermediate typed slices)
+ \cup {C1(f, Lit(a)) : f \in {"sort", "reverse", "max", "min", "to_array", "values", "keys", "sum", "avg", "length", "to_string"},
+                       a \in {A1(S(cA)), A1(I(1)), A2(S(cB), S(cA)), A2(I(2), I(1)), O1(cA, S(cA))}}
+ \cup {C1("sort", C1("keys", Lit(O1(cA, I(1))))), C2("join", LitA, Lit(A1(S(cA)))), C2("sort_by", Lit(A1(O1(cA, S(cA)))), Ref(fA)),
+       C2("map", Ref(fA), Lit(A1(O1(cA, S(cA))))), MSL(<<C1("sort", Lit(A1(S(cA))))>>)}
  \cup {Proj(b, fA) : b \in {fA, fC, Current}} \cup {Proj(Flat(b), Identity) : b \in {fA, fC, Current}} \cup {VProj(b, fA) : b \in {fA, fC, Current}}
  \cup {Filt(b, Identity, Lit(Bool(FALSE))) : b \in {fA, fC, Current}} \cup {SliceOf(b, IntP(5), NoneP, NoneP) : b \in {fA, fC, Current}}
  \cup {MSL(<<fA>>), MSH(<<KV(cA, fA)>>), Lit(A0), Lit(O0), Pipe(fC, Proj(Identity, Identity))})
@@ -347,7 +352,9 @@ MetaL1 == SetToSeq({fA, fB, fC, IdxI(0), IdxI(-1), Current, Lit(I(1)), LitA, Lit
                     VProj(fA, Identity), VProj(Identity, fA), SliceOf(fB, IntP(1), NoneP, NoneP), SliceOf(fB, NoneP, NoneP, IntP(-1)),
                     C1("length", fB), C1("keys", fA), C1("sort", fB), C1("type", fA), C1("to_string", fA), C1("to_array", fA), C1("abs", fA), C1("max", fB),
                     C2("sort_by", fB, Ref(fA)), C2("max_by", fB, Ref(fA)), C2("map", Ref(fA), fB), C2("merge", fA, Lit(O1(cB, I(2)))), C2("contains", fB, Lit(I(1))),
-                    C2("join", Lit(S(<<44>>)), fB), Or(fA, fB), And(fA, fB), Not(fA), Cmp("eq", fA, fB), Cmp("lt", fA, Lit(I(2))), ErrAbs, C1("nosuchfn", fA)})
+                    C2("join", Lit(S(<<44>>)), fB), Or(fA, fB), And(fA, fB), Not(fA), Cmp("eq", fA, fB), Cmp("lt", fA, Lit(I(2))), ErrAbs, C1("nosuchfn", fA),
+                    \* a filter whose right-hand side is null on the first match, and one whose condition errors on a later element (as left sides of `| [0]`)
+                    Filt(fB, fB, fA), Filt(fB, Identity, Cmp("eq", C1("abs", fA), Lit(I(1))))})
 MetaOps == <<fA, fB, Lit(I(1)), Lit(Null), Current, IdxI(0)>>
 MetaNS == 24
 MetaDim(s) == IF s \in {1, 2, 3, 4, 5, 6, 9, 10, 15, 17} THEN Len(MetaOps) ELSE 1
